@@ -163,6 +163,39 @@ func runC14(c *eng.Ctx) {
 	c.Rule("SYMMETRY", "pkg/encoding,aggregation{empty-slot sentinel = +Inf}", func() { emptySentinelIsPlusInf(c) })
 
 	// the offset table's width covers its largest offset
+	// ---- the XOR codec's window: writer and reader start every block from the same (leading, trailing) ---------------------------------
+	// (the encoder re-uses "the previous window" without writing it whenever the new value fits inside; what the previous window
+	// is before any was written is a convention both sides must share - any leading-zero count 0..63 is a real window)
+	c.Rule("SYMMETRY", "pkg/encoding.XOREncoder/XORDecoder{initial window}", func() {
+		initial := func(typ, field string, fns ...string) (vals map[string]bool, n int) {
+			vals = map[string]bool{}
+			for _, k := range fns {
+				f := c.Fn(k)
+				sites := p.Sites(f, eng.StoreField("pkg/encoding."+typ+"."+field))
+				if len(sites) == 0 {
+					vals["0"] = true // left at the zero value
+					n++
+				}
+				for _, s := range sites {
+					v, _ := storedValue(s.Instr)
+					n++
+					if k, ok := v.(*ssa.Const); ok && k.Value != nil {
+						vals[k.Value.ExactString()] = true
+					} else {
+						vals["?"+p.Desc(v)] = true
+					}
+				}
+			}
+			return
+		}
+		for _, field := range []string{"leading", "trailing"} {
+			ev, _ := initial("XOREncoder", field, "pkg/encoding.NewXOREncoder", "pkg/encoding.XOREncoder.Reset")
+			dv, _ := initial("XORDecoder", field, "pkg/encoding.NewXORDecoder", "pkg/encoding.XORDecoder.Reset")
+			c.Check(len(ev) == 1 && len(dv) == 1 && keysOfBool(ev) == keysOfBool(dv), "same-initial-"+field, nil, c.Fn("pkg/encoding.XOREncoder.Reset"),
+				"constructor and Reset of the encoder and of the decoder all start from the same "+field+" count", "encoder {"+keysOfBool(ev)+"} decoder {"+keysOfBool(dv)+"}")
+		}
+	})
+
 	c.Rule("GUARD", "pkg/encoding.FixedOffsetEncoder{max = maximum of the offsets}", func() { offsetEncoderMax(c) })
 
 	// one bit per slot: the bit stream is positional (BytesWithoutTime is decoded against a slot range stored elsewhere)
